@@ -265,7 +265,7 @@ pub fn gen(tier: Tier, rng: &mut Rng64, out: &mut Out) {
     }
 
     // --- thresholds: all variable subsets (as sorted lists) x k = 0 … len + 2
-    let nsat = if thorough { 8 } else { 6 };
+    let nsat = if thorough { 9 } else { 6 };
     for n in 0..=nsat {
         for vars in subsets_as_lists(n) {
             for k in 0..=(vars.len() + 2) {
@@ -298,7 +298,7 @@ pub fn gen(tier: Tier, rng: &mut Rng64, out: &mut Out) {
         }
     }
     // random lists (duplicates, any order) over more variables
-    for _ in 0..(if thorough { 4000 } else { 400 }) {
+    for _ in 0..(if thorough { 30000 } else { 400 }) {
         let n = 4 + rng.below(if thorough { 9 } else { 5 }) as usize;
         let len = rng.below(n as u64 + 3) as usize;
         let vars: Vec<usize> = (0..len).map(|_| rng.below(n as u64) as usize).collect();
